@@ -4,6 +4,7 @@
 # of /repo HEAD and runs, in a scratch copy of the framework (VERIF_SRC, default /verif), the quick
 # check of the patch's own property and of every property anchored in a file the patch touches
 # (tools/anchor_map.json).  Prints QUIET/ALARM/INFRA per check.  Touches neither /repo nor /verif.
+# BENIGN_ONLY_OWN=1 restricts the run to the check of the patch's own property.
 set -u
 d=$(realpath $1); tier=${2:-quick}; seed=${3:-0}
 n=b-$(basename $(dirname $d))-$(basename $d)-$$
@@ -24,6 +25,7 @@ for line in open(d / "patch.diff"):
 print(" ".join(sorted(ps)))
 EOF
 )
+[ -n "${BENIGN_ONLY_OWN:-}" ] && props=$(python3 -c "import json;print(json.load(open(\"$d/meta.json\"))[\"property\"])")
 for prop in $props; do
   out=$(cd $base/verif && DCLAB_REPO=$base/repo VERIF_SEED=$seed ./check $prop --tier $tier 2>&1); rc=$?
   if [ $rc -eq 0 ]; then echo "QUIET $d $prop"; elif [ $rc -eq 1 ]; then echo "ALARM $d $prop"; echo "$out" | grep -E "VIOLATION" | cut -c1-200
